@@ -268,7 +268,7 @@ Section Protocol.
   Qed.
 
   Lemma init_inv : Inv init.
-  Proof. unfold Inv; cbn [now ctl procs]. split; [lia|reflexivity]. Qed.
+  Proof. unfold Inv, init; cbn [now ctl procs]. split; [lia|reflexivity]. Qed.
 
   Lemma run_inv : forall tr st st', Inv st -> run os T lat st tr = Some st' -> Inv st'.
   Proof.
@@ -437,3 +437,14 @@ Lemma witness_runs :
   exists st, run linux 1000 0 init witness_trace = Some st /\ ctl st = PcRet 5 ErrNone
              /\ In (mkProc true true false false false false) (procs st).
 Proof. eexists. split; [vm_compute; reflexivity|]. split; [reflexivity|]. cbn. right. left. reflexivity. Qed.
+
+Lemma witness_not_stopped :
+  exists st p, run linux 1000 0 init witness_trace = Some st /\ ctl st = PcRet 5 ErrNone /\ now st = 100005
+               /\ In p (procs st) /\ in_group p = true /\ alive p = true /\ got_kill p = false.
+Proof.
+  destruct witness_runs as (st & Hr & Hc & Hin). exists st, (mkProc true true false false false false).
+  repeat split; try assumption. revert Hr. vm_compute. intros H. inversion H; subst. reflexivity.
+Qed.
+
+Lemma bound_1030 : forall T lat, bound T lat = T + 1030 + 3 * lat.
+Proof. intros. unfold bound. pose proof waits_sum. lia. Qed.
